@@ -182,6 +182,8 @@ class PowSym(AbstractValue):
             return self.owner["degree"]
         if name in ("n", "coeffs"):
             return _SelfData(self)
+        if name == "field_modulus":
+            return var("field_modulus", "int")
         raise AnalysisError(f"attribute {name} of a formal power")
 
     def v_type(self, it):
